@@ -6,11 +6,23 @@ from rtamt.exception.exception import RTAMTException
 
 class StlHorizon(LtlHorizon, StlAstVisitor):
 
-    def __init__(self):
+    def __init__(self, step=1):
         LtlHorizon.__init__(self)
+        # duration of one step of next / s_next, in the default unit
+        self.step = step
 
     def visit(self, node, *args, **kwargs):
         return StlAstVisitor.visit(self, node, *args, **kwargs)
+
+    def visitNext(self, node, *args, **kwargs):
+        op_horizon = self.visit(node.children[0], *args, **kwargs)
+        self.horizons[node] = op_horizon + self.step
+        return op_horizon + self.step
+
+    def visitStrongNext(self, node, *args, **kwargs):
+        op_horizon = self.visit(node.children[0], *args, **kwargs)
+        self.horizons[node] = op_horizon + self.step
+        return op_horizon + self.step
 
     def visitTimedEventually(self, node, *args, **kwargs):
         op_horizon = self.visit(node.children[0], *args, **kwargs)
